@@ -726,10 +726,74 @@ def run_grid(ctx):
         ctx.sample({"file": metas[0], "impl": impl[0]})
 
 
+# fixed corpus: (what, size, k, n, maxSeg, servers, policy, grid seed, source, key mode)
+CORPUS = [
+    # all k blocks of a segment are primary shares (k = N) and complete out of share-number order (seeded C01-a)
+    ("k=N-out-of-order", 300, 2, 2, 30, 2, "random", 11, "Data", "convergent"),
+    ("k=N-out-of-order", 300, 3, 3, 30, 3, "random", 12, "Data", "convergent"),
+    ("k=N-out-of-order", 300, 3, 3, 30, 3, "random", 13, "FileHandle", "convergent"),
+    ("k=N-out-of-order", 400, 4, 4, 40, 4, "random", 14, "Data", "convergent"),
+    ("k=N-one-server", 300, 3, 3, 30, 1, "random", 15, "Data", "convergent"),
+    ("k=N-fifo", 300, 3, 3, 30, 3, "fifo", 16, "Data", "convergent"),
+    ("k=N-out-of-order", 200, 5, 5, 25, 7, "random", 17, "Data", "random"),
+    # tail segment so short that whole blocks of it are padding (seeded C01-b)
+    ("tail=1,k=2", 65, 2, 3, 64, 3, "random", 21, "Data", "convergent"),
+    ("tail=1,k=3", 61, 3, 5, 30, 5, "random", 22, "Data", "convergent"),
+    ("tail=2,k=3", 62, 3, 5, 30, 5, "fifo", 23, "Data", "convergent"),
+    ("tail=4,k=3", 64, 3, 5, 30, 5, "random", 24, "Data", "convergent"),
+    ("single-segment,16-of-16", 100, 16, 16, 1048576, 16, "random", 25, "Data", "convergent"),
+    ("single-segment,10-of-12", 61, 10, 12, 1048576, 12, "random", 26, "Data", "convergent"),
+    ("tail=30,7-of-10", 100, 7, 10, 70, 10, "random", 27, "Data", "convergent"),
+    ("size=56,k=8", 56, 8, 9, 1048576, 9, "random", 28, "FileHandle", "convergent"),
+    # random key (convergence=None) / every stock source; the cap must carry the key the shares were encrypted under (C01-c)
+    ("random-key", 56, 3, 10, 1048576, 10, "random", 31, "Data", "random"),
+    ("random-key", 300, 3, 5, 64, 5, "random", 32, "FileHandle", "random"),
+    ("random-key", 1000, 2, 3, 128, 3, "fifo", 33, "FileName", "random"),
+    ("random-key", 57, 1, 1, 16, 1, "random", 34, "ChunkLists", "random"),
+    ("filename-with-secret", 300, 3, 5, 64, 5, "random", 35, "FileName", "convergent"),
+    ("filename-with-secret", 56, 1, 2, 1048576, 2, "random", 36, "FileName", "convergent"),
+]
+
+
+def run_corpus(ctx):
+    """one minimal end-to-end case per known mechanism, independent of VERIF_SEED: upload, then read back through the cap
+    that very upload returned (monitor straight from the statement)"""
+    import grid
+    from allmydata.immutable import upload
+    for (what, size, k, n, max_seg, servers, policy, seed, source, keymode) in CORPUS:
+        data = bytes((i * 7 + (i >> 5) * 13 + seed) % 256 for i in range(size))
+        case = {"kind": "corpus", "what": what, "t": [size, k, n, max_seg, servers, policy, seed], "source": source, "keymode": keymode}
+        with grid.Runtime(seed=seed, policy=policy) as rt:
+            g = grid.Grid(grid.fresh_dir("c01c"), rt, num_servers=servers, num_clients=1, k=k, happy=1, n=n, max_segment_size=max_seg)
+            try:
+                c = g.clients[0]
+                # three reads of the same cap under the continuing seeded schedule: different block completion orders
+                res = roundtrip(ctx, rt, c, upload, source, keymode, data, case, "corpus (%s)" % what)
+                if res is not None and what.startswith("k=N"):
+                    from allmydata.util.consumer import MemoryConsumer
+                    for rep in range(3):
+                        mc = MemoryConsumer()
+                        try:
+                            rt.wait(c.nodemaker._create_immutable(__import__("allmydata.uri", fromlist=["x"]).from_string(res.get_uri())).read(mc, 0, None))
+                            if b"".join(mc.chunks) != data:
+                                ctx.violation("corpus (%s): repeated read returns wrong bytes" % what, case, "roundtrip-failed:reread:wrong-bytes")
+                        except Exception as ex:
+                            ctx.violation("corpus (%s): reading back through the returned cap failed" % what, case,
+                                          "roundtrip-failed:reread:" + type(ex).__name__, repr(ex)[:300])
+                ctx.case(("C", what, size, k, n, max_seg, servers, policy, seed, source, keymode))
+                ctx.count("corpus:" + what.split(",")[0])
+            finally:
+                g.close()
+
+
 def run(ctx):
     import common
     common.setup_impl_path()
     import grid  # noqa: F401  (disables the CPU thread pool before zfec is used)
+    if not ctx.replay or ctx.replay.get("case", {}).get("kind") == "corpus":
+        run_corpus(ctx)
+    if os.environ.get("VERIF_CORPUS_ONLY"):
+        return
     kind = ctx.replay.get("case", {}).get("kind") if ctx.replay else None
     if kind in (None, "numbers", "layout", "enc", "dl", "guess"):
         run_numbers(ctx)
